@@ -88,6 +88,22 @@ def gen_python(rel, ops):
             if m and s0:
                 l, r = seg(src, n.left), seg(src, n.comparators[0])
                 out.append((rel, replace_node(src, n, f"{l} {m} {r}"), f"compare `{s0[:40]}` -> {m} @{n.lineno}"))
+        # negate an if / while test
+        if "ifneg" in ops and isinstance(n, (ast.If, ast.While)) and not (isinstance(n.test, ast.Constant)):
+            s0 = seg(src, n.test)
+            if s0:
+                out.append((rel, replace_node(src, n.test, f"not ({s0})"), f"negate `{s0[:50]}` @{n.lineno}"))
+        # arithmetic / bit operators
+        if "arith" in ops and isinstance(n, ast.BinOp):
+            m = {ast.Add: "-", ast.Sub: "+", ast.LShift: ">>", ast.RShift: "<<", ast.BitAnd: "|", ast.BitOr: "&", ast.Mult: "//", ast.FloorDiv: "*"}.get(type(n.op))
+            l, r = seg(src, n.left), seg(src, n.right)
+            if m and l and r and not isinstance(n.left, ast.Constant) or (m and l and r and isinstance(n.left, ast.Constant) and not isinstance(n.left.value, str)):
+                out.append((rel, replace_node(src, n, f"({l}) {m} ({r})"), f"operator `{seg(src, n)[:40]}` -> {m} @{n.lineno}"))
+        # slice bounds
+        if "slice" in ops and isinstance(n, ast.Slice):
+            for b in (n.lower, n.upper):
+                if isinstance(b, ast.Constant) and isinstance(b.value, int) and not isinstance(b.value, bool):
+                    out.append((rel, replace_node(src, b, str(b.value + 1)), f"slice bound {b.value} -> {b.value + 1} @{b.lineno}"))
         # 7: sorted
         if "sorted" in ops and isinstance(n, ast.Call) and isinstance(n.func, ast.Name) and n.func.id == "sorted" and len(n.args) == 1:
             out.append((rel, replace_node(src, n, f"list({seg(src, n.args[0])})"), f"remove sorted() @{n.lineno}"))
@@ -120,13 +136,20 @@ def gen_grammar(ops):
     return out
 
 
+B09_SEMANTIC_PROCS = {"ecb_instr", "ecb_string", "ecb_read_filter", "ecb_str", "ecb_hex", "_ecb_input_prefix", "_ecb_input_suffix", "ecb_val", "ecb_mid", "ecb_left", "ecb_right", "_ecb_get_num", "_ecb_read_value"}
+
+
 def gen_b09(ops):
     rel = "coco/resources/ecb.b09"
     src = read(rel)
     lines = re.split(r"(\r\n|\r|\n)", src)
     out = []
+    cur_proc = ""
     for i in range(0, len(lines), 2):
         ln = lines[i]
+        pm = re.match(r"(?i)^\s*procedure\s+(\w+)", ln)
+        if pm:
+            cur_proc = pm.group(1).lower()
         m = re.match(r"(?i)^(\s*param\s+)(\w+)\s*,\s*(\w+)(.*)$", ln)
         if "b09param" in ops and m:
             new = lines[:]
@@ -138,6 +161,17 @@ def gen_b09(ops):
             new = lines[:]
             new[i] = f"{m.group(1)}{', '.join(args[:-1])})"
             out.append((rel, "".join(new), f"drop last arg `{ln.strip()[:50]}` (line {i//2+1})"))
+        if "b09op" in ops and cur_proc in B09_SEMANTIC_PROCS and not re.match(r"(?i)^\s*(param|dim|type|procedure|rem|\(\*)", ln):
+            for a_, b_ in (("<=", ">="), (">=", "<="), (" < ", " <= "), (" > ", " >= "), ("<>", "="), (" + ", " - "), (" - ", " + "), (" AND ", " OR "), (" and ", " or ")):
+                if a_ in ln and '"' not in ln:
+                    new = lines[:]
+                    new[i] = ln.replace(a_, b_, 1)
+                    out.append((rel, "".join(new), f"{cur_proc}: `{ln.strip()[:50]}` {a_.strip()} -> {b_.strip()} (line {i//2+1})"))
+                    break
+        if "b09del" in ops and cur_proc in B09_SEMANTIC_PROCS and re.match(r"(?i)^\s*[a-z_][\w.$()]*\s*:?=[^=]", ln):
+            new = lines[:]
+            new[i] = "REM " + ln.strip()
+            out.append((rel, "".join(new), f"{cur_proc}: delete `{ln.strip()[:50]}` (line {i//2+1})"))
         if "b09type" in ops and re.search(r"(?i)^type display_t", ln) and i < 400:
             new = lines[:]
             new[i] = ln.replace("hbck, hfore", "hfore, hbck", 1)
